@@ -6,6 +6,11 @@ use crate::{offset_of, push, Ev};
 
 type Ext<T> = Result<(T, usize), &'static str>;
 
+/// for extern functions generated next to a grammar: record the call like the library functions do
+pub fn log_ext_call<T>(name: &'static str, s: &str, r: &Result<(T, usize), &'static str>) {
+    log_ext(name, s, r)
+}
+
 fn log_ext<T>(name: &'static str, s: &str, r: &Ext<T>) {
     push(Ev::Ext {
         name,
